@@ -132,6 +132,6 @@ def setSuspended (self : St V) (b : Bool) : St V := { self with suspended := b }
 def defnAssign (self : St V) (k : Nat) (v : V) : St V := { self with setting := upd self.setting k v }
 
 /-- `defn.update_from_calculator(calc)` of a leaf definition: its setting takes the calculator's value -/
-def defnFromCalc (self : St V) (k : Nat) (calc : Nat → V) : St V := { self with setting := upd self.setting k (calc k) }
+def defnFromCalc (self : St V) (k : Nat) (cv : Nat → V) : St V := { self with setting := upd self.setting k (cv k) }
 
 end CogentModel.Ctl.Prim
